@@ -121,13 +121,13 @@ def convert(paths, per_module_max=None, stride=1, per_file_max=None):
             if why is None:
                 if "tstart" in kinds:
                     why = "threaded run (order of concurrent wakes is not logged)"
-                elif "repoll" in kinds:
+                elif "repoll" in kinds and (mod not in ("JoinLike", "Race", "Merge", "Zip", "Chain", "WaitUntil") or new["n"] == 0):
                     why = "poll after the final result (unspecified, not modelled)"
                 elif "skip" in kinds:
                     why = "vector skipped by the harness"
                 elif new["fam"] == "stream_group" and any(e["e"] == "insert" and e.get("key", 0) < 0 for e in evs):
                     why = "extend (members without a key) not modelled"
-                elif any(e["e"] == "panic" and e.get("at") != "poll" for e in evs):
+                elif any(e["e"] == "panic" and e.get("at") not in ("poll", "repoll") for e in evs):
                     why = "panic outside poll"
                 elif evs[-1]["e"] != "end":
                     why = "truncated run (crash)"
